@@ -113,6 +113,7 @@ func newC15Env() *c15Env {
 	fs := NewRefFS()
 	seedFS(fs, []string{"mkdir /d", "file /f " + hx([]byte("0123456789"))})
 	w := newWorldOn(fs, SrvCfg{AttrTTL: 5e9})
+	w.realClock = true
 	absnfs.VerifClockOff()
 	if err := w.srv.NFS.Export("/", 0); err != nil {
 		panic(err)
